@@ -86,8 +86,11 @@ func (h *H264Writer) Close() error {
 func isKeyFrame(data []byte) bool {
 	const (
 		typeSTAPA       = 24
+		typeFUA         = 28
+		typeIDR         = 5
 		typeSPS         = 7
 		naluTypeBitmask = 0x1F
+		fuStartBitmask  = 0x80
 	)
 
 	var word uint32
@@ -97,12 +100,28 @@ func isKeyFrame(data []byte) bool {
 		return false
 	}
 
-	naluType := (word >> 24) & naluTypeBitmask
-	if naluType == typeSTAPA && word&naluTypeBitmask == typeSPS {
-		return true
-	} else if naluType == typeSPS {
-		return true
+	isKeyNalu := func(naluType uint32) bool {
+		return naluType == typeSPS || naluType == typeIDR
 	}
 
-	return false
+	switch naluType := (word >> 24) & naluTypeBitmask; naluType {
+	case typeSTAPA:
+		// STAP-A header (1 byte), then NALUs prefixed by their 16-bit size
+		for offset := 1; offset+2 < len(data); {
+			naluSize := int(binary.BigEndian.Uint16(data[offset:]))
+			if isKeyNalu(uint32(data[offset+2] & naluTypeBitmask)) {
+				return true
+			}
+			offset += 2 + naluSize
+		}
+
+		return false
+	case typeFUA:
+		// FU indicator, then the FU header: start bit and the type of the fragmented NALU
+		fuHeader := (word >> 16) & 0xFF
+
+		return fuHeader&fuStartBitmask != 0 && isKeyNalu(fuHeader&naluTypeBitmask)
+	default:
+		return isKeyNalu(naluType)
+	}
 }
